@@ -56,6 +56,7 @@ PROPS = [
     ("result.x_is", ["C12", "C01"]), ("IterationLimit", ["C02", "C08"]), ("never_more_iterations", ["C02"]), ("no_limit", ["C02"]),
     ("collect_path", ["C12"]), ("no_collect_path", ["C12", "C09"]), ("final_rho", ["C16"]), ("dist_factor", ["C12"]),
     ("solve:self.rho_reset", ["C10", "C16"]),
+    ("deadline_timer", ["C02", "C08", "C10"]),
 ]
 PROPS.insert(0, PROPS.pop())
 
@@ -77,6 +78,8 @@ class SolveCtx:
         self.restore = None
         self.set_path = None
         self.head = None
+        self.timers = []
+        self.pre_ids = set()
 
 
 def build(u, policy, collect_path=None, limited=None):
@@ -113,6 +116,16 @@ def build(u, policy, collect_path=None, limited=None):
     solver = u.construct("pygradflow.solver.Solver", Opaque("user problem"), params)
     havoc_persistent(u, solver, skip=(params, problem, transform, ev))
     ctx.solver = solver
+    # objects that exist before solve() is entered (anything created by __init__ or left by earlier solves)
+    stack = [solver]
+    while stack:
+        o = stack.pop()
+        if id(o) in ctx.pre_ids:
+            continue
+        ctx.pre_ids.add(id(o))
+        for v in getattr(o, "fields", {}).values():
+            if isinstance(v, Obj):
+                stack.append(v)
     A = u.it.abstract
 
     def create_transformed_iterate(it, self_, x0, y0):
@@ -153,6 +166,7 @@ def build(u, policy, collect_path=None, limited=None):
             k = it.path.choose_n(5, "gate outcome")
             st = [None, ST("TimeLimit"), ST("Optimal"), ST("LocallyInfeasible"), ST("Unbounded")][k]
         ctx.gate.append((iterate, iteration, st))
+        ctx.timers.append(timer)
         return st
 
     A["pygradflow.solver.Solver._check_terminate"] = check_terminate
@@ -179,10 +193,13 @@ def build(u, policy, collect_path=None, limited=None):
 
     A["pygradflow.step.step_control.StepController.compute_step"] = compute_step
 
-    def set_path(it, self_, path, model_times):
-        ctx.set_path = (path, model_times)
+    def set_path_hook(it, fn, args, kwargs, node, frame):
+        from pyvc.interp import BoundMethod
 
-    A["pygradflow.result.SolverResult._set_path"] = set_path
+        if isinstance(fn, BoundMethod) and fn.func.qualname == "pygradflow.result.SolverResult._set_path":
+            ctx.set_path = tuple(args)
+
+    u.it.hooks["call"] = set_path_hook
     return ctx
 
 
@@ -283,7 +300,8 @@ class SolveLoop:
             n = L["accepted_steps"] + 1
             F = p.func("path_elem", z3.IntSort(), z3.IntSort(), z3.RealSort())
             T = p.func("path_time", z3.IntSort(), z3.RealSort())
-            L["path"] = ListCell(SymList(n, lambda k: Opaque("path column", k), "path"))
+            zlen = ctx.problem.fields["__n__"] + ctx.problem.fields["num_cons"]
+            L["path"] = ListCell(SymList(n, lambda k: Opaque("path column", ("len", zlen)), "path"))  # every column is a z vector
             L["path_times"] = ListCell(SymList(n, lambda k: T(k if not isinstance(k, int) else z3.IntVal(k)), "path_times"))
         ctx.n_steps = p.int("n_steps")
         ctx.n_cb = p.int("n_cb")
@@ -301,49 +319,38 @@ class SolveLoop:
                         n_steps=ctx.n_steps, n_cb=ctx.n_cb, maxy=ctx.maxy, path_dist=L["path_dist"])
 
     HAVOCED = {"iterate", "lamb", "iteration", "accepted_steps", "path_dist", "num_penalty_changes", "status", "path", "path_times"}
-    BODY_LOCAL = {"display_iterate", "step_result", "x", "y", "next_iterate", "accept", "primal_step_norm", "dual_step_norm", "state", "penalty_result", "next_rho"}
 
     def check_havoc_complete(self, frame):
-        """every name the loop body assigns must be havoced or be a body-local temporary (else undecided)"""
+        """every variable that is LOOP-CARRIED (assigned in the body and live at the loop head or read after the
+        loop) must be havoced by this contract; temporaries of the body may be renamed / added freely"""
         from pyvc.core import Unsupported
 
         fn = frame.func.node
         loop = next(n for n in ast.walk(fn) if isinstance(n, ast.While))
-        assigned = set()
-        attrs = set()
-        for n in ast.walk(loop):
-            if isinstance(n, ast.Name) and isinstance(n.ctx, ast.Store):
-                assigned.add(n.id)
-            if isinstance(n, ast.Attribute) and isinstance(n.ctx, ast.Store):
-                attrs.add(ast.unparse(n))
-        extra = assigned - self.HAVOCED - self.BODY_LOCAL
-        # a temporary that is unconditionally assigned before its first use in the body and never read after the
-        # loop is not loop-carried state
-        after = set()
-        seen_loop = False
+        assigned = {n.id for n in ast.walk(loop) if isinstance(n, ast.Name) and isinstance(n.ctx, ast.Store)}
+        attrs = {ast.unparse(n) for n in ast.walk(loop) if isinstance(n, ast.Attribute) and isinstance(n.ctx, ast.Store)}
+        live_in = _live_in(loop.body) | {n.id for n in ast.walk(loop.test) if isinstance(n, ast.Name)}
+        rest, seen_loop = [], False
         for st in fn.body:
             if st is loop:
                 seen_loop = True
-                continue
-            if seen_loop:
-                after |= {n.id for n in ast.walk(st) if isinstance(n, ast.Name) and isinstance(n.ctx, ast.Load)}
-        for name in sorted(extra):
-            for st in loop.body:
-                names = {n.id for n in ast.walk(st) if isinstance(n, ast.Name)}
-                if name not in names:
-                    continue
-                tg = []
-                if isinstance(st, ast.Assign):
-                    for t in st.targets:
-                        tg += [n.id for n in ast.walk(t) if isinstance(n, ast.Name)]
-                    loads = {n.id for n in ast.walk(st.value) if isinstance(n, ast.Name)}
-                    if name in tg and name not in loads and name not in after:
-                        extra = extra - {name}
-                break
+            elif seen_loop:
+                rest.append(st)
+        after = _live_in(rest)
+        carried = assigned & (live_in | after)
+        extra = carried - self.HAVOCED - self.GUARDED
         if extra:
             raise Unsupported(f"loop contract of Solver.solve does not cover loop-carried variable(s) {sorted(extra)}")
+        missing = [v for v in self.HAVOCED - {"status", "path_times"} if v not in frame.locals]
+        if self.ctx.params.fields["collect_path"] and "path_times" not in frame.locals:
+            missing.append("path_times")
+        if missing:
+            raise Unsupported(f"loop contract of Solver.solve refers to variable(s) {missing} that no longer exist (renamed?)")
         if attrs - {"self.rho"}:
             raise Unsupported(f"loop contract of Solver.solve does not cover attribute store(s) {sorted(attrs)}")
+
+    # assigned under `if accept:` and read only under a later `if accept:` (accept can only be cleared in between)
+    GUARDED = {"next_rho"}
 
     # ---- back edge -------------------------------------------------------------------
     def preserve(self, it, frame, site):
@@ -463,6 +470,64 @@ def havoc_persistent(u, solver, skip=()):
             walk(v, 1)
 
 
+def _live_in(stmts, defined=frozenset()):
+    """names that may be read before they are (definitely) written when executing `stmts` (structured control flow;
+    conservative: a conditional definition does not count as a definition)"""
+    defined = set(defined)
+    live = set()
+
+    def uses(node):
+        return {n.id for n in ast.walk(node) if isinstance(n, ast.Name) and isinstance(n.ctx, ast.Load)}
+
+    def targets(t):
+        return {n.id for n in ast.walk(t) if isinstance(n, ast.Name) and isinstance(n.ctx, ast.Store)}
+
+    for st in stmts:
+        if isinstance(st, ast.Assign):
+            live |= uses(st.value) - defined
+            for t in st.targets:
+                live |= {n.id for n in ast.walk(t) if isinstance(n, ast.Name) and isinstance(n.ctx, ast.Load)} - defined
+                if isinstance(t, (ast.Name, ast.Tuple, ast.List)):
+                    defined |= targets(t)
+        elif isinstance(st, ast.AugAssign):
+            live |= (uses(st.value) | {n.id for n in ast.walk(st.target) if isinstance(n, ast.Name)}) - defined
+        elif isinstance(st, ast.AnnAssign):
+            if st.value is not None:
+                live |= uses(st.value) - defined
+                defined |= targets(st.target)
+        elif isinstance(st, ast.If):
+            live |= uses(st.test) - defined
+            live |= _live_in(st.body, defined)
+            live |= _live_in(st.orelse, defined)
+            defined |= _must_def(st.body) & _must_def(st.orelse)
+        elif isinstance(st, (ast.For, ast.While)):
+            live |= (uses(st.iter) if isinstance(st, ast.For) else uses(st.test)) - defined
+            inner = set(defined) | (targets(st.target) if isinstance(st, ast.For) else set())
+            live |= _live_in(st.body, inner) | _live_in(st.orelse, defined)
+        elif isinstance(st, ast.Try):
+            for blk in [st.body, st.orelse, st.finalbody] + [h.body for h in st.handlers]:
+                live |= _live_in(blk, defined)
+        elif isinstance(st, ast.FunctionDef):
+            defined.add(st.name)
+        else:
+            live |= uses(st) - defined
+    return live
+
+
+def _must_def(stmts):
+    d = set()
+    for st in stmts:
+        if isinstance(st, ast.Assign):
+            for t in st.targets:
+                if isinstance(t, (ast.Name, ast.Tuple, ast.List)):
+                    d |= {n.id for n in ast.walk(t) if isinstance(n, ast.Name) and isinstance(n.ctx, ast.Store)}
+        elif isinstance(st, ast.If):
+            d |= _must_def(st.body) & _must_def(st.orelse)
+        elif isinstance(st, (ast.Raise, ast.Break, ast.Continue, ast.Return)):
+            break
+    return d
+
+
 def mk_dummy(u, ctx, k):
     from .models import _fresh_vec
     from pyvc.values import Mat
@@ -498,6 +563,7 @@ def solve_unit(u, policy):
     u.ensure(res.fields["iterations"] == head["n_cb"], "result.iterations==#announced_step_computations")
     u.ensure(res.fields["num_accepted_steps"] is head["accepted"], "result.num_accepted_steps==accepted_steps")
     u.ensure(gate_it is head["iterate"], "gate_tested_the_current_iterate")
+    u.ensure(all(id(t) not in ctx.pre_ids for t in ctx.timers), "deadline_timer_started_inside_this_solve", desc="the timer handed to the termination test existed before solve() was entered: the deadline would be measured from an earlier moment")
     hx, hy = head["iterate"].fields["x"], head["iterate"].fields["y"]
     u.ensure(ctx.restore is not None and ctx.restore[0] is hx and ctx.restore[1] is hy and ctx.restore[2] is head["iterate"].fields.get("bounds_dual"), "result(x,y,d)==restore_sol(last_accepted.x,.y,.bounds_dual)")
     u.ensure(res.fields["_x"] is not None and isinstance(res.fields["_x"], Opaque) and res.fields["_x"].tag == "x_user", "result.x_is_the_restored_x")
